@@ -9,7 +9,7 @@ from ..loader import AnalysisError, FuncInfo
 from ..report import rule
 from ..resolve import Resolver
 from ..terms import Attr, Cmp, Range, Sym
-from .common import Flow, attr_chain, bind_args, callee_fq, calls_to, short, unparse
+from .common import Flow, attr_chain, bind_args, call_arg, callee_fq, calls_to, ctor_args, short, unparse
 
 PHASES = {
     "repopulate": "fast_ticc.cluster_maintenance.repopulate_empty_clusters",
@@ -359,7 +359,7 @@ def r4(ctx):
     must = ["point_labels", "label_assignment_cost", "markov_random_fields", "all_log_likelihood", "overall_log_likelihood",
             "overall_log_likelihood_mean", "overall_log_likelihood_median", "cluster_log_likelihood_mean",
             "cluster_log_likelihood_median", "bayesian_information_criterion", "calinski_harabasz_index"]
-    kws = {k.arg: k.value for k in ctor[0].node.keywords}
+    kws = ctor_args(ana, ctor[0])
     for name in must:
         v = kws.get(name)
         if v is None:
@@ -518,7 +518,7 @@ def _lifecycle(ctx, which):
         ctor = calls_to(ana, fi, "fast_ticc.containers.results.SingleDataSeriesResult")
         if not bic or len(ctor) != 1:
             raise AnalysisError("BIC call / result constructor not found in the main loop function")
-        kw = {k.arg: k.value for k in ctor[0].node.keywords}
+        kw = ctor_args(ana, ctor[0])
         fl = Flow(ana, fi)
 
         def state_origins(expr):
